@@ -48,6 +48,11 @@ def targeted():
         out.append(g(f"{x} ~ {y} | {z} ~ {w}")); 
     for x, y, z in itertools.product(ab + ["b"], repeat=3):
         out += [g(f"{x} ~ {y} | {z}", "@"), g(f"{x} | {y} ~ {z}"), g(f"({x} ~ {y})* ~ {z}"), g(f"{x} ~ {y} | {z}", "$")]
+    # heads that can match at the same position (one a prefix of the other, a range containing the other's first char)
+    heads = ['"a"', '"ab"', "'a'..'b'", '^"A"']
+    for x, z in itertools.permutations(heads, 2):
+        for tail in ['"b"', "b", '"c" ~ "d"']:
+            out += [g(f"{x} ~ {tail} | {z} ~ {tail}"), g(f"{x} ~ {tail} | {z} ~ {tail}", "@"), g(f"({x} ~ {tail} | {z} ~ {tail}) ~ \"c\"", "", '"b"', "", '_{ " " }')]
     for y in ["ANY", '"a"', "ASCII_DIGIT", "b"]:
         for x in ['"a"', '("a" | "b")', "b"]:
             out += [g(f"(!{x} ~ {y})*", "@"), g(f"(&{x} ~ {y})*", "@"), g(f"(!{x} ~ {y})+", "@"), g(f"({y} ~ !{x})*", "@")]
@@ -117,7 +122,7 @@ def run(ctx):
     native.build(extras)
     known, _ = load_known("C05")
     N = int(os.environ.get("VERIF_C05_N", "3" if ctx.quick else "5"))
-    count = int(os.environ.get("VERIF_C05_GRAMMARS", "600" if ctx.quick else "1600"))
+    count = int(os.environ.get("VERIF_C05_GRAMMARS", "1400" if ctx.quick else "3000"))
     import random
     tg = targeted(); random.Random(ctx.seed).shuffle(tg)
     gs = tg[:count * 2 // 3]
